@@ -36,7 +36,7 @@ from harness.props import c17
 
 PID = 'C14'
 TITLE = 'Remote evaluation is observationally the same as local evaluation'
-LEAN_MODULES = ['MlModel.Properties.C14']
+LEAN_MODULES = ['MlModel.Properties.C14', 'MlModel.Witness.C14']
 TRUSTED = [
     'the real DeepMind courier transport is absent: harness/fakecourier supplies the assumed contract (a call runs '
     'its handler at most once and completes with the handler\'s value, or fails with a status whose code is 4 for '
